@@ -313,7 +313,7 @@ def oracle_grid_pairing_bilinear(ctx):
               (9, 2, 3), (15, 3, 1), (25, 2, 2), (125, 3, 2), (1023, 2, 1)]  # odd nxseg: lines k*fs/nxseg, k = 0..(nxseg-1)/2, the last one below Nyquist
     if not ctx.quick():
         shapes += [(20, 6, 4), (128, 7, 3), (512, 8, 1), (2048, 3, 4), (4096, 8, 4), (50, 1, 2), (17, 4, 2), (63, 2, 4), (255, 5, 1), (999, 2, 2), (4095, 1, 1)]
-    fss = [1.0, 10.0, 100.0, 12.5, 3.0, 0.5, 250.0, 2000.0]
+    fss = [1.0, 10.0, 100.0, 12.5, 3.0, 0.5, 250.0, 2000.0, 51.2, 99.0]
     for (n, nall, nref) in shapes:
         for method in ("per", "cor"):
             fs = fss[int(rng.integers(len(fss)))]
@@ -390,7 +390,7 @@ def oracle_welch(ctx):
         for rep in range(reps):
             nall = int(rng.integers(1, 9))
             nref = int(rng.integers(1, 5))
-            fs = float(rng.choice([1.0, 8.0, 100.0, 12.5, 0.25, 1000.0, 37.0]))
+            fs = float(rng.choice([1.0, 8.0, 100.0, 12.5, 0.25, 1000.0, 37.0, 51.2, 99.0, 0.5]))
             m = int(rng.integers(0, n))
             if rep % 2 == 0:
                 m = [0, n // 4, n // 2, (3 * n) // 4][int(rng.integers(4))]
@@ -470,7 +470,7 @@ def oracle_gain_delay(ctx):
                 confs.append((n, d, g))
     for (n, d, g) in confs:
         K = 120
-        fs = float(rng.choice([100.0, 1.0, 20.0]))
+        fs = float(rng.choice([100.0, 1.0, 20.0, 51.2, 12.5]))
         N = n * K // 2 + n
         x = rng.standard_normal(N + d)
         Y = np.vstack([x[d:d + N], g * x[:N]])  # Y[1][t] = g * Y[0][t - d]
@@ -525,7 +525,7 @@ def oracle_sinusoid(ctx):
             continue
         K = int(rng.integers(2, 6))
         N = m + K * (n - m) + int(rng.integers(0, n - m))
-        fs = float(rng.choice([1.0, 50.0, 256.0]))
+        fs = float(rng.choice([1.0, 50.0, 256.0, 12.5, 99.0, 0.5, 51.2]))
         t = np.arange(N)
         Y = np.real(A[:, None] * np.exp(2j * np.pi * k0 * t[None, :] / n))
         case = dict(kind="sinusoid", n=n, line=k0, amplitudes=amp.tolist(), phases=ph.tolist(), pov=pov, N=N, fs=fs)
@@ -552,36 +552,103 @@ def oracle_sinusoid(ctx):
                 ofail(ctx, "per", "sinusoid", "Sy[i][j]/Sy[i][i] at the sinusoids' line differs from A_j/A_i by %.3g (limit 1e-9)" % worst, case)
 
 
-def oracle_classes(ctx):
-    """observe_at: FDD / pLSCF result.{freq,Sy} are SD_est(data^T, data^T, dt, nxseg, method, pov)."""
-    from pyoma2.algorithms import FDD, pLSCF
+def class_sequence(ctx, spec, origin="gen"):
+    """observe_at: FDD / EFDD / FSDD / pLSCF result.{freq,Sy}.  One algorithm OBJECT is driven through a sequence of steps; after
+    every run its stored freq/Sy must be SD_est on the data and sampling rate the object holds NOW with the run parameters it has
+    NOW (so: Welch with the current overlap, grid fs_now/nxseg_now, g^2 scaling of the current record) - nothing may survive
+    from an earlier run.  spec = dict(cls, seed, nch, setups=[dict(N, fs, gain)], init=dict(nxseg, method, pov), steps=[...]);
+    steps: ["run"] | ["pov", x] | ["nxseg", n] | ["method", m] | ["attach", setup index] (each followed by a run)."""
+    import pyoma2.algorithms as algs
     from pyoma2.setup import SingleSetup
+    cls = getattr(algs, spec["cls"])
+    drng = np.random.default_rng(spec["seed"])
+    base = drng.standard_normal((max(su["N"] for su in spec["setups"]), spec["nch"]))
+    datas = [su["gain"] * base[:su["N"]] + (0.0 if k == 0 else 0.25 * drng.standard_normal((su["N"], spec["nch"]))) for k, su in enumerate(spec["setups"])]
+    cur = dict(spec["init"])
+    where = 0
+    kw = dict(name="a", nxseg=cur["nxseg"], method_SD=cur["method"], pov=cur["pov"])
+    if spec["cls"] == "pLSCF":
+        kw["ordmax"] = 6
+    prev = None
+    try:
+        with warnings.catch_warnings():
+            warnings.simplefilter("ignore")
+            setups = [SingleSetup(d.copy(), fs=su["fs"]) for d, su in zip(datas, spec["setups"])]
+            alg = cls(**kw)
+            setups[0].add_algorithms(alg)
+    except Exception as ex:
+        ctx.note("class glue %s not exercised: %s: %s" % (spec["cls"], type(ex).__name__, str(ex)[:80]))
+        return
+    for si, step in enumerate([["run"]] + [list(x) for x in spec["steps"]]):
+        kind = step[0]
+        before = dict(cur, setup=where)
+        try:
+            with warnings.catch_warnings():
+                warnings.simplefilter("ignore")
+                if kind == "pov":
+                    cur["pov"] = step[1]
+                elif kind == "nxseg":
+                    cur["nxseg"] = step[1]
+                elif kind == "method":
+                    cur["method"] = step[1]
+                elif kind == "attach":
+                    where = step[1]
+                    setups[where].add_algorithms(alg)
+                if kind in ("pov", "nxseg", "method"):
+                    alg.set_run_params(alg.run_params.model_copy(update=dict(nxseg=cur["nxseg"], method_SD=cur["method"], pov=cur["pov"])))
+                setups[where].run_by_name("a")
+        except Exception as ex:
+            ctx.note("class glue %s step %s not exercised: %s: %s" % (spec["cls"], kind, type(ex).__name__, str(ex)[:80]))
+            return
+        fs = spec["setups"][where]["fs"]
+        f, S = sd_est(datas[where].T, datas[where].T, 1.0 / fs, cur["nxseg"], cur["method"], cur["pov"])
+        fr, Sr = np.asarray(alg.result.freq), np.asarray(alg.result.Sy)
+        case = dict(kind="class-seq", origin=origin, spec=spec, failing_step=si, step=step, before=before, now=dict(cur, setup=where, fs=fs))
+        ctx.count(dict(kind="class-seq", cls=spec["cls"], seed=spec["seed"], step=si, what=step, now=dict(cur, setup=where)))
+        ctx.hist("class_step", (spec["cls"], kind))
+        bad = None
+        if fr.shape != f.shape or not np.allclose(fr, f, rtol=1e-12, atol=0):
+            bad = "result.freq has %d lines, df %.6g; expected %d lines, df %.6g (fs now %g, nxseg now %d)" % (
+                len(fr), fr[1] - fr[0] if len(fr) > 1 else float("nan"), len(f), f[1] - f[0], fs, cur["nxseg"])
+        elif Sr.shape != S.shape or relerr(Sr, S) > 1e-12:
+            stale = prev is not None and Sr.shape == prev.shape and np.array_equal(Sr, prev)
+            bad = "result.Sy deviates from SD_est on the current data/parameters by %.3g%s" % (
+                relerr(Sr, S) if Sr.shape == S.shape else float("inf"), " (it is still the result of the previous run)" if stale else "")
+        elif kind == "run" and si > 0 and not (np.array_equal(Sr, prev) and np.array_equal(fr, prevf)):
+            bad = "running twice with nothing changed gives a different result"
+        if bad:
+            desc = {"run": "re-run unchanged", "pov": "pov only changed %s -> %s" % (before["pov"], cur["pov"]),
+                    "nxseg": "nxseg only changed %s -> %s" % (before["nxseg"], cur["nxseg"]),
+                    "method": "method only changed %s -> %s" % (before["method"], cur["method"]),
+                    "attach": "object re-attached to a setup with other data (gain %g) and fs %g" % (spec["setups"][where]["gain"], fs)}[kind]
+            ctx.fail("oracle", "%s (run %d of one object; %s): %s" % (spec["cls"], si, desc, bad), case, key="C13:glue:%s:%s" % (spec["cls"], kind))
+            return
+        prev, prevf = Sr.copy(), fr.copy()
+
+
+def oracle_classes(ctx):
     rng = ctx.np_rng
-    for k in range(ctx.n(2, 6)):
-        nch = int(rng.integers(2, 5))
-        n = [64, 128][k % 2]
-        pov = [0.5, 0.25, 0.75][k % 3]
-        fs = [100.0, 20.0][k % 2]
-        data = rng.standard_normal((n * 8 + 13, nch))
-        for method in ("per", "cor"):
-            for cls in (FDD, pLSCF):
-                case = dict(kind="class-glue", cls=cls.__name__, method=method, nch=nch, nxseg=n, pov=pov, fs=fs)
-                ctx.count(dict(case, d=float(data[0, 0])))
-                try:
-                    with warnings.catch_warnings():
-                        warnings.simplefilter("ignore")
-                        ss = SingleSetup(data.copy(), fs=fs)
-                        alg = cls(name="a", nxseg=n, method_SD=method, pov=pov) if cls is FDD else cls(name="a", ordmax=6, nxseg=n, method_SD=method, pov=pov)
-                        ss.add_algorithms(alg)
-                        ss.run_by_name("a")
-                except Exception as ex:  # the glue is not what this property constrains beyond the stored spectra
-                    ctx.note("class glue %s(%s) not exercised: %s: %s" % (cls.__name__, method, type(ex).__name__, str(ex)[:80]))
-                    continue
-                f, S = sd_est(data.T, data.T, 1.0 / fs, n, method, pov)
-                fr, Sr = np.asarray(alg.result.freq), np.asarray(alg.result.Sy)
-                if fr.shape != f.shape or Sr.shape != S.shape or not np.allclose(fr, f, rtol=1e-12, atol=0) or relerr(Sr, S) > 1e-12:
-                    ctx.fail("oracle", "%s.result.freq/Sy is not SD_est(data^T, data^T, dt, nxseg, %s, pov)" % (cls.__name__, method), case,
-                             key="C13:glue:%s:%s" % (cls.__name__, method))
+    for path in sorted(glob.glob(os.path.join(VERIF, "corpus", "C13", "*.json"))):
+        c = json.load(open(path))
+        if c.get("kind") == "class-seq":
+            class_sequence(ctx, c["spec"], origin=os.path.basename(path))
+    fss = [100.0, 12.5, 51.2, 99.0, 0.5, 20.0, 256.0]
+    for cname in ("FDD", "EFDD", "FSDD", "pLSCF"):
+        for rep in range(ctx.n(2, 6)):
+            n0 = int(rng.choice([32, 64, 128]))
+            n1 = int(rng.choice([x for x in (32, 64, 128, 50) if x != n0]))
+            p0, p1, p2 = [float(x) for x in rng.permutation([0.0, 0.25, 0.5, 0.75])[:3]]
+            m0 = "per" if rep % 2 == 0 else "cor"
+            m1 = "cor" if m0 == "per" else "per"
+            f0, f1 = [float(x) for x in rng.choice(fss, size=2, replace=False)]
+            setups = [dict(N=128 * 8 + 13, fs=f0, gain=1.0), dict(N=128 * 6 + 5, fs=f1, gain=float(rng.choice([-3.0, 0.2, 7.5])))]
+            # every single-parameter change, the re-attachment and the unchanged re-run, in a random order; then the same changes after the re-attachment
+            steps = [["pov", p1], ["nxseg", n1], ["method", m1], ["attach", 1], ["run"]]
+            steps = [steps[i] for i in rng.permutation(len(steps))]
+            steps += [["pov", p2], ["attach", 0], ["method", m0], ["nxseg", n0], ["run"]]
+            spec = dict(cls=cname, seed=int(rng.integers(1 << 30)), nch=int(rng.integers(2, 5)), setups=setups,
+                        init=dict(nxseg=n0, method=m0, pov=p0), steps=steps)
+            class_sequence(ctx, spec)
 
 
 def oracle_corpus(ctx):
